@@ -175,3 +175,69 @@ func VerifC16EndOfTime() { verifC16TwoGroupsAt(false, true) }
 // VerifC16DurationChangeFinding re-derives the listed finding: after ALTER RETENTION POLICY ... SHARD DURATION the
 // next group is aligned to the new duration and can overlap an existing one.
 func VerifC16DurationChangeFinding() { verifC16TwoGroups(true) }
+
+// VerifC16DeletedGroup: a group is created, marked deleted, the shard-group duration is lowered, and groups
+// are requested again at the same instant and at a second one. A deleted group does not stand for a live
+// one (the instant gets a new live group) and does not hide one either: asking again for a covered instant
+// finds the live group instead of creating an overlapping twin.
+func VerifC16DeletedGroup() {
+	verifC16Base = verifC16Bases[0]
+	data := verifC16Catalogue(168 * time.Hour)
+	t1 := verifC16Instant("t1", verifC16Base)
+	verifrt.Assert(data.CreateShardGroup("db", "rp", t1, util.Hot, config.TSSTORE, 0) == nil, "CreateShardGroup(t1) failed")
+	g1, _ := data.ShardGroupByTimestampAndEngineType("db", "rp", t1, config.TSSTORE)
+	verifrt.Assert(g1 != nil, "no group for t1")
+	id1 := g1.ID // g1 points into the policy's group slice, which is re-sorted by later commands
+	verifrt.Assert(data.DeleteShardGroup("db", "rp", id1, 1, MarkDelete) == nil, "DeleteShardGroup failed")
+	rpu := &RetentionPolicyUpdate{}
+	rpu.SetShardGroupDuration(verifC16Durations[verifrt.Choose("d2", 3)]) // 1h, 2h or 24h: inside the deleted week
+	verifrt.Assert(data.UpdateRetentionPolicy("db", "rp", rpu, false) == nil, "UpdateRetentionPolicy failed")
+	verifrt.Assert(data.CreateShardGroup("db", "rp", t1, util.Hot, config.TSSTORE, 0) == nil, "CreateShardGroup(t1) after delete failed")
+	g2, _ := data.ShardGroupByTimestampAndEngineType("db", "rp", t1, config.TSSTORE)
+	verifrt.Assert(g2 != nil && g2.ID != id1 && !g2.Deleted() && g2.Contains(t1), "a deleted group stands for a live one")
+	id2, start2, end2 := g2.ID, g2.StartTime, g2.EndTime
+	verifC16WellFormed(data, "after re-creating a deleted span")
+	t2 := verifC16Instant("t2", verifC16Base)
+	maxSG := data.MaxShardGroupID
+	verifrt.Assert(data.CreateShardGroup("db", "rp", t2, util.Hot, config.TSSTORE, 0) == nil, "CreateShardGroup(t2) failed")
+	verifC16WellFormed(data, "after the second request")
+	_ = id2
+	if !t2.Before(start2) && t2.Before(end2) {
+		verifrt.Assert(data.MaxShardGroupID == maxSG, "a covered instant got a second live group")
+		verifrt.Reach("covered")
+	}
+	verifrt.Reach("end")
+}
+
+// VerifC16ExpandGroups: a store node joins (the number of partitions grows) and the existing index and shard
+// groups are expanded: every index id and every shard id is still handed out once, and every shard refers
+// to an existing index.
+func VerifC16ExpandGroups() {
+	verifC16Base = verifC16Bases[0]
+	data := verifC16Catalogue(verifC16Durations[verifrt.Choose("d1", 3)])
+	data.ClusterPtNum = 2
+	t1 := verifC16Instant("t1", verifC16Base)
+	verifrt.Assert(data.CreateShardGroup("db", "rp", t1, util.Hot, config.TSSTORE, 0) == nil, "CreateShardGroup failed")
+	if verifrt.Tier() > 0 && verifrt.Bool("twoGroups") {
+		t2 := verifC16Instant("t2", verifC16Base)
+		verifrt.Assert(data.CreateShardGroup("db", "rp", t2, util.Hot, config.TSSTORE, 0) == nil, "CreateShardGroup(t2) failed")
+	}
+	data.ClusterPtNum = 3 + uint32(verifrt.Choose("grow", 2))
+	data.ExpandGroups()
+	verifC16WellFormed(data, "after expanding the groups")
+	rp, _ := data.RetentionPolicy("db", "rp")
+	var ids []uint64
+	for _, ig := range rp.IndexGroups {
+		for _, ix := range ig.Indexes {
+			verifrt.Assert(ix.ID <= data.MaxIndexID, "index id above the id counter")
+			for _, o := range ids {
+				verifrt.Assert(o != ix.ID, "an index id is used twice")
+			}
+			ids = append(ids, ix.ID)
+		}
+	}
+	for i := range rp.ShardGroups {
+		verifrt.Assert(len(rp.ShardGroups[i].Shards) == int(data.ClusterPtNum), "a shard group was not expanded to the new number of partitions")
+	}
+	verifrt.Reach("end")
+}
